@@ -144,6 +144,55 @@ def _classes_of(repo, fn, var):
     return sorted(out)
 
 
+def rule_edition_table(ctx: Ctx):
+    """R-C16-7: the generated extractor table says, per spelling, exactly what reporters-db says.  Two citations that differ only in the
+    reporter spelling are equal iff both spellings lead to the same single candidate edition; a spelling that picks up an edition the
+    database does not list for it (or loses one) changes which citations are equal.  Decided on data: the candidate editions attached to
+    each filter string by tokenizers._populate_reporter_extractors (materialised table) against reporters_db.REPORTERS (edition identity =
+    name + start + end)."""
+    import collections
+
+    from .. import materialize
+
+    data = materialize.load(ctx.repo.root)
+    tm = ctx.repo.mod("tokenizers")
+    dbmap = data.get("db_edition_map")
+    if not dbmap:
+        ctx.ob("R-C16-7", "reporters-db/edition-map", False, "reporters-db edition map not materialised", node=None, mod=tm)
+        return
+    var = collections.defaultdict(set)
+    exact = collections.defaultdict(set)
+    for s_, kind, ed, st, en, _src in dbmap:
+        (exact if kind == "edition" else var)[s_].add((ed, st, en))
+    gv = collections.defaultdict(set)
+    ge = collections.defaultdict(set)
+    n_ext = 0
+    for e in data["extractors"]:
+        if not e["ctor"].startswith("CitationToken"):
+            continue
+        eds = e["exact"] + e["variation"]
+        if not any(x[1] == "reporters" for x in eds):
+            continue
+        n_ext += 1
+        for s_ in e["strings"]:
+            for x in e["variation"]:
+                if x[1] == "reporters":
+                    gv[s_].add((x[0], x[3], x[4]))
+            for x in e["exact"]:
+                if x[1] == "reporters":
+                    ge[s_].add((x[0], x[3], x[4]))
+    keys = set(var) | set(exact) | set(gv) | set(ge)
+    bad = sorted(s_ for s_ in keys if gv[s_] != var[s_] or ge[s_] != exact[s_])
+    detail = ""
+    if bad:
+        s0 = bad[0]
+        detail = (f"; e.g. {s0!r}: generated variation candidates {sorted(map(str, gv[s0]))} vs database {sorted(map(str, var[s0]))}, exact "
+                  f"{sorted(map(str, ge[s0]))} vs {sorted(map(str, exact[s0]))}")
+    ctx.ob("R-C16-7", "extractors/candidate-editions-agree-with-reporters-db", not bad and len(keys) > 3000 and n_ext > 4000,
+           f"for each of the {len(keys)} reporter spellings, the exact-name and variation candidate editions of the extractors that carry it are exactly the "
+           f"editions reporters-db gives for that spelling ({len(bad)} spellings disagree{detail})", node=None, mod=tm)
+
+
 def run(ctx: Ctx):
     ctx.level = "other"
     ctx.explanation = (
@@ -164,6 +213,7 @@ def run(ctx: Ctx):
     ctx.guard(rule_normalisation_reached, ctx)
     ctx.guard(rule_guess_edition, ctx, "R-C16-5b")
     ctx.guard(rule_merge_dedup, ctx, "R-C16-5c")
+    ctx.guard(rule_edition_table, ctx)
     ctx.floor("R-C16-H1", 10)
     ctx.floor("R-C16-H2", 3)
     ctx.floor("R-C16-H4", 4)
